@@ -158,6 +158,9 @@ func buildTemplates() []*template {
 	add("garg.map", "", `gmap(@)`)
 	add("garg.func", "", `gfn(@)`)
 	add("garg.ptr", "", `gptr(@)`)
+	// a pointer stays THE pointer: what the Go callee writes through its argument is
+	// seen through the variable the operand came from (not a pointer to a copy)
+	add("garg.ptr.write", "", "gptrset(@)\n*v")
 	add("garg.var", "", `gvar(@)`)
 	add("garg.var2", "", `gvar(1, @)`)
 	add("garg.2", "", `g2(1, @)`)
